@@ -103,3 +103,26 @@ _stub("C01", "Decides structural clauses of C01: (a) every composition, inverse 
              "stop x shape opacity encoding; (f) at most one transform wrapper above a PaintGlyph. Does NOT decide numerical equality "
              "of the rendered picture, picosvg's normal form, ufo2ft compilation or rounding bounds.",
       "rendered-picture equality; _decompose_uniform_transform arithmetic; ufo2ft/fontTools compilation; rounding")
+
+_stub("C02", "Decides structural clauses of C02: coordinate-space typing of svg.py (the glyph <g transform> is viewBox -> OT-SVG; the "
+             "inverse reuse transform is conjugated font <-> viewBox with target/donor owners; gradients attached to a <use> end in "
+             "the donor's frame and to a <path> in the target's; a pre-applied gradient transform is not applied twice); the user "
+             "transform is bracketed by the y flip in map_viewbox_to_otsvg_space; <use>/id pairing on every path; attribute migration "
+             "only when all uses agree; glyph ids read after the reshuffle come from the renumbered mapping and one group list drives "
+             "numbering and emission; picosvg/compressed wiring. Does NOT decide a renderer's interpretation of <use x y transform>, "
+             "3-digit rounding or the Safari nudge's visual effect.",
+      "renderer semantics of <use>; rounding to 3 digits; involutory-matrix nudge")
+
+_stub("C06", "Decides structural clauses of C06: coordinate-space typing of both reuse branches (COLR reuse wrapper with the gradient "
+             "counter-transformed by the inverse reuse transform; OT-SVG <use> with the conjugated inverse); try_reuse returns a "
+             "transform only under fixed_safe, the COLR branch returns the wrapper only when the combined gradient transform fits, the "
+             "OverflowError fall-back wraps the untouched gradient in the same transform, abandoned reuse reaches the un-reused emission; "
+             "every comparison of the reuse tolerance with the 'disabled' sentinel covers the whole negative half-line; look-up and "
+             "insertion use the same key and tolerance. Does NOT decide the metamorphic equality itself or picosvg's affine_between.",
+      "reuse-on == reuse-off equality of rendered glyphs; accuracy of picosvg.affine_between / normalize")
+_stub("C19", "Decides structural clauses of C19: the path looked up for reuse is the path inserted, every new outline is registered, "
+             "look-up and insertion normalise with one tolerance derived from the configuration, one font-wide cache; the reuse wrapper "
+             "/ <use> is produced whenever a donor exists unless the transform overflows; try_reuse gives up for exactly four reasons "
+             "(disabled, no donor, no affine, overflow); reuse is disabled only by a negative tolerance. Does NOT decide that picosvg's "
+             "normalisation identifies all isometric copies.",
+      "completeness of picosvg's congruence detection")
